@@ -442,3 +442,151 @@ Proof.
   intros HB Hr H1 H0 Fr F1 F0. apply roundtrip_of; [apply reads_bv|].
   apply file_ok_bv; [exact HB| | |]; apply file_ok_vec; try assumption; apply file_ok_Forall; assumption.
 Qed.
+
+(* ------------------------------------------------------------------ sparse bitvector *)
+
+(* the high parts form a non-decreasing chain b <= h1 <= ... <= hk < B *)
+Fixpoint chain (w b : N) (items : list N) (B : N) : Prop :=
+  match items with
+  | [] => b <= B
+  | x :: t => b <= N.shiftr x w /\ N.shiftr x w < B /\ chain w (N.shiftr x w) t B
+  end.
+
+Lemma shiftr_mono a b w : a <= b -> N.shiftr a w <= N.shiftr b w.
+Proof. intros H. rewrite !N.shiftr_div_pow2. apply N.div_le_mono; [apply N.pow_nonzero; lia|exact H]. Qed.
+
+Lemma shiftr_lt_buckets x n w : x < n -> N.shiftr x w < doc_buckets n w.
+Proof.
+  intros H. unfold doc_buckets. rewrite N.shiftr_div_pow2.
+  assert (Hp : 2 ^ w <> 0) by (apply N.pow_nonzero; lia).
+  replace (n + 2 ^ w - 1) with ((n - 1) + 1 * 2 ^ w) by lia. rewrite N.div_add by exact Hp.
+  assert (x / 2 ^ w <= (n - 1) / 2 ^ w) by (apply N.div_le_mono; [exact Hp|lia]). lia.
+Qed.
+
+Lemma chain_of_sorted w n items : sorted_le items = true -> Forall (fun x => x < n) items ->
+  forall b, match items with [] => b <= doc_buckets n w | x :: _ => b <= N.shiftr x w end ->
+  chain w b items (doc_buckets n w).
+Proof.
+  induction items as [|x t IH]; intros Hs Hn b Hb; [exact Hb|].
+  inversion Hn as [|? ? Hx Ht]; subst. cbn [chain]. split; [exact Hb|]. split; [apply shiftr_lt_buckets; exact Hx|].
+  apply IH; [destruct t; [reflexivity|]; cbn [sorted_le] in Hs; apply andb_prop in Hs; apply Hs|exact Ht|].
+  destruct t as [|y u]; [pose proof (shiftr_lt_buckets x n w Hx); lia|].
+  cbn [sorted_le] in Hs. apply andb_prop in Hs. destruct Hs as [Hxy _]. apply shiftr_mono. lia.
+Qed.
+
+Lemma count_repeat_false k : count (repeat false k) = 0.
+Proof. induction k; [reflexivity|]. cbn [repeat count b2n]. lia. Qed.
+Lemma count_negb_repeat_false k : count (map negb (repeat false k)) = N.of_nat k.
+Proof. induction k; [reflexivity|]. cbn [repeat map count negb b2n]. lia. Qed.
+
+Lemma high_bits_count w items B : forall b, count (high_bits w b items B) = lenN items.
+Proof.
+  induction items as [|x t IH]; intros b; cbn [high_bits].
+  - apply count_repeat_false.
+  - rewrite count_app, count_repeat_false. cbn [count b2n]. rewrite IH, lenN_cons. lia.
+Qed.
+
+Lemma high_bits_zeros w items B : forall b, chain w b items B ->
+  count (map negb (high_bits w b items B)) = B - b.
+Proof.
+  induction items as [|x t IH]; intros b Hc; cbn [high_bits chain] in *.
+  - rewrite count_negb_repeat_false. lia.
+  - destruct Hc as (H1 & H2 & H3). rewrite map_app, count_app, count_negb_repeat_false. cbn [map count negb b2n].
+    rewrite IH by exact H3. lia.
+Qed.
+
+Lemma high_bits_length w items B : forall b, chain w b items B ->
+  lenN (high_bits w b items B) = lenN items + (B - b).
+Proof.
+  induction items as [|x t IH]; intros b Hc; cbn [high_bits chain] in *.
+  - unfold lenN. rewrite repeat_length. cbn [length]. lia.
+  - destruct Hc as (H1 & H2 & H3). rewrite lenN_app, !lenN_cons, IH by exact H3.
+    unfold lenN at 1. rewrite repeat_length. lia.
+Qed.
+
+Lemma last_repeat_false k : last (repeat false k) false = false.
+Proof. induction k as [|k IH]; [reflexivity|]. cbn [repeat]. destruct (repeat false k) eqn:E; [reflexivity|]. cbn [last]. exact IH. Qed.
+
+Lemma last_app_ne {A} (a b : list A) d : b <> [] -> last (a ++ b) d = last b d.
+Proof.
+  intros Hb. induction a as [|x t IH]; [reflexivity|]. cbn [app]. destruct (t ++ b) eqn:E.
+  - apply app_eq_nil in E. destruct E; congruence.
+  - cbn [last]. exact IH.
+Qed.
+
+Lemma last_cons_ne {A} (x : A) l d : l <> [] -> last (x :: l) d = last l d.
+Proof. intros H. destruct l; [congruence|reflexivity]. Qed.
+
+Lemma high_bits_last w items B : forall b, chain w b items B -> last (high_bits w b items B) false = false.
+Proof.
+  induction items as [|x t IH]; intros b Hc; cbn [high_bits chain] in *.
+  - apply last_repeat_false.
+  - destruct Hc as (H1 & H2 & H3). rewrite last_app_ne by discriminate.
+    assert (Hne : high_bits w (N.shiftr x w) t B <> []).
+    { destruct t as [|y u]; cbn [high_bits].
+      - destruct (N.to_nat (B - N.shiftr x w)) eqn:E; [lia|discriminate].
+      - intros E. apply app_eq_nil in E. destruct E; discriminate. }
+    rewrite last_cons_ne by exact Hne. apply IH. exact H3.
+Qed.
+
+Lemma ones_from_repeat_false k L pos : ones_from (repeat false k ++ L) pos = ones_from L (pos + N.of_nat k).
+Proof.
+  revert pos. induction k as [|k IH]; intros pos.
+  - cbn [repeat app]. f_equal. lia.
+  - cbn [repeat app ones_from]. rewrite IH. f_equal. lia.
+Qed.
+
+Lemma split_low_high x w : x mod 2 ^ w + N.shiftl (N.shiftr x w) w = x.
+Proof.
+  rewrite N.shiftl_mul_pow2, N.shiftr_div_pow2. pose proof (N.div_mod x (2 ^ w) (N.pow_nonzero 2 w ltac:(lia))). lia.
+Qed.
+
+Lemma sparse_items_high_bits w items B : forall b i, chain w b items B ->
+  sparse_items w i (ones_from (high_bits w b items B) (b + i)) (map (fun x => x mod 2 ^ w) items) = items.
+Proof.
+  induction items as [|x t IH]; intros b i Hc; cbn [high_bits chain map] in *.
+  - destruct (ones_from _ _); reflexivity.
+  - destruct Hc as (H1 & H2 & H3). rewrite ones_from_repeat_false. cbn [ones_from sparse_items].
+    replace (b + i + N.of_nat (N.to_nat (N.shiftr x w - b)) - i) with (N.shiftr x w) by lia.
+    rewrite split_low_high. f_equal.
+    replace (b + i + N.of_nat (N.to_nat (N.shiftr x w - b)) + 1) with (N.shiftr x w + (i + 1)) by lia.
+    apply IH. exact H3.
+Qed.
+
+Lemma Forall_lt_forallb n items : Forall (fun x => x < n) items -> forallb (fun x => x <? n) items = true.
+Proof. apply Forall_forallb. intros x H. lia. Qed.
+
+Lemma reads_sparse w n items : 1 <= w <= 64 -> sorted_le items = true -> Forall (fun x => x < n) items ->
+  reads p_sparse (doc_encode_sparse w (n, items)) (n, items).
+Proof.
+  intros Hw Hs Hn. unfold p_sparse, doc_encode_sparse.
+  change (n :: ?b) with ([n] ++ b). eapply reads_bind; [apply reads_elem|].
+  eapply reads_bind; [apply reads_bv|].
+  rewrite <- (app_nil_r (doc_encode_int _ _)). eapply reads_bind.
+  { apply reads_int; [exact Hw|]. apply Forall_forall. intros v Hv. apply in_map_iff in Hv. destruct Hv as (x & <- & _).
+    apply N.mod_lt. apply N.pow_nonzero. lia. }
+  assert (Hc : chain w 0 items (doc_buckets n w)).
+  { apply chain_of_sorted; try assumption. destruct items; lia. }
+  cbv beta iota zeta.
+  apply reads_must; [rewrite high_bits_count; unfold lenN; rewrite map_length; lia|].
+  apply reads_must; [rewrite high_bits_zeros by exact Hc; lia|].
+  apply reads_must; [rewrite high_bits_last by exact Hc; reflexivity|].
+  assert (Ei : sparse_items w 0 (ones (high_bits w 0 items (doc_buckets n w))) (map (fun x => x mod 2 ^ w) items) = items).
+  { unfold ones. exact (sparse_items_high_bits w items _ 0 0 Hc). }
+  rewrite Ei.
+  apply reads_must; [rewrite Hs, Forall_lt_forallb by exact Hn; reflexivity|]. apply reads_ret.
+Qed.
+
+Lemma roundtrip_sparse w n items :
+  1 <= w <= 64 -> n < 2 ^ 64 -> sorted_le items = true -> Forall (fun x => x < n) items ->
+  lenN items + doc_buckets n w < 2 ^ 64 -> lenN items * w < 2 ^ 64 ->
+  doc_valid_sparse (doc_encode_sparse w (n, items)) = true /\
+  doc_content_sparse (doc_encode_sparse w (n, items)) = Some (n, items).
+Proof.
+  intros Hw Hn Hs Hi Hh Hl. apply roundtrip_of; [apply reads_sparse; assumption|].
+  unfold doc_encode_sparse. rewrite file_ok_cons, file_ok_app, elem_ok_lt by exact Hn. cbn [andb].
+  assert (Hc : chain w 0 items (doc_buckets n w)).
+  { apply chain_of_sorted; try assumption. destruct items; lia. }
+  unfold no_sup. rewrite file_ok_bv; [|rewrite high_bits_length by exact Hc; lia|reflexivity|reflexivity|reflexivity]. cbn [andb].
+  apply file_ok_int; [lia| |]; unfold lenN in *; rewrite map_length; lia.
+Qed.
